@@ -172,22 +172,8 @@ def decodeModule (file : String) : Sx → Option (String × Bool × Except SynEr
 def ghostEntry (e : Pos × Nat) : Sx :=
   .atom (toString e.1.line ++ ":" ++ toString e.1.col ++ "=" ++ toString e.2)
 
-def handleEval : Sx → Option Sx
-  | .list (.atom "session" :: .list [.atom "flags", .atom sec, fuelA] :: .list (.atom "mods" :: mods) ::
-      .list (.atom "base" :: baseNames) :: .list (.atom "eff" :: eff) :: .list (.atom "known" :: known) :: progs) => do
-    let fuel ← atomNat? fuelA
-    let secure := sec == "secure"
-    let ms ← mods.mapM (decodeModule "m")
-    let ld : Loader := {
-      bundled := (ms.filter (·.2.1)).map (fun m => (m.1, m.2.2)),
-      user := (ms.filter (fun m => !m.2.1)).map (fun m => (m.1, m.2.2)),
-      effectful := ← eff.mapM decStr?,
-      knownNatives := ← known.mapM decStr?,
-      baseNames := (← baseNames.mapM decStr?).filter (fun n => !modelledNatives.contains n && !["checkerlang_secure_mode", "MAXINT", "MININT", "NULL"].contains n),
-      bundledNames := ["base.ckl", "bitwise.ckl", "core.ckl", "date.ckl", "io.ckl", "legacy.ckl", "list.ckl", "math.ckl", "os.ckl",
-                       "predicate.ckl", "random.ckl", "set.ckl", "stat.ckl", "string.ckl", "sys.ckl", "type.ckl"] }
-    let realBase ← baseNames.mapM decStr?
-    let (s0, senv) := initialState secure (if realBase.isEmpty then modelledNatives else modelledNatives.filter realBase.contains)
+/-- run the programs of a session one after the other on the session frame; the response rows followed by the ghost row -/
+def runSession (ld : Loader) (fuel : Nat) (s0 : State) (senv : EnvId) (progs : List Sx) : List Sx := Id.run do
     let step := fun (acc : State × List Sx) (p : Sx) =>
       let (s, outs) := acc
       match p with
@@ -212,7 +198,62 @@ def handleEval : Sx → Option Sx
       .list (.atom "fin" :: sEnd.ghost.fin.map ghostEntry),
       .list (.atom "mods" :: sEnd.ghost.moduleEvals.map (fun (e : String × Nat) => Sx.list [sxStr e.1, .atom (toString e.2)])),
       .list [.atom "modstack", .atom (toString sEnd.modstack.length)]]
-    some (.list (.atom "session" :: outs ++ [ghost]))
+    return outs ++ [ghost]
+
+def handleEval : Sx → Option Sx
+  | .list (.atom "session" :: .list [.atom "flags", .atom sec, fuelA] :: .list (.atom "mods" :: mods) ::
+      .list (.atom "base" :: baseNames) :: .list (.atom "eff" :: eff) :: .list (.atom "known" :: known) :: progs) => do
+    let fuel ← atomNat? fuelA
+    let secure := sec == "secure"
+    let ms ← mods.mapM (decodeModule "m")
+    let ld : Loader := {
+      bundled := (ms.filter (·.2.1)).map (fun m => (m.1, m.2.2)),
+      user := (ms.filter (fun m => !m.2.1)).map (fun m => (m.1, m.2.2)),
+      effectful := ← eff.mapM decStr?,
+      knownNatives := ← known.mapM decStr?,
+      baseNames := (← baseNames.mapM decStr?).filter (fun n => !modelledNatives.contains n && !["checkerlang_secure_mode", "MAXINT", "MININT", "NULL"].contains n),
+      bundledNames := ["base.ckl", "bitwise.ckl", "core.ckl", "date.ckl", "io.ckl", "legacy.ckl", "list.ckl", "math.ckl", "os.ckl",
+                       "predicate.ckl", "random.ckl", "set.ckl", "stat.ckl", "string.ckl", "sys.ckl", "type.ckl"] }
+    let realBase ← baseNames.mapM decStr?
+    let (s0, senv) := initialState secure (if realBase.isEmpty then modelledNatives else modelledNatives.filter realBase.contains)
+    some (.list (.atom "session" :: runSession ld fuel s0 senv progs))
+  | _ => none
+
+
+/-! ### sessions on the REAL base environment: constants + `bind_native`, then the bundled `base.ckl` / `legacy.ckl` source (handed over
+    as an AST like every other bundled module) evaluated in the base frame — `get_base_environment`.  The library code the model then
+    runs IS the repository's `.ckl` source, re-read on every run. -/
+
+structure LibSetup where
+  ld : Loader
+  s0 : State
+  senv : EnvId
+  fuel : Nat
+
+def libSetup : Sx → Option (Except Sx LibSetup)
+  | .list [.atom "libsetup", .list [.atom "flags", .atom sec, fuelA, .atom mode], .list (.atom "mods" :: mods),
+      .list (.atom "eff" :: eff), .list (.atom "known" :: known)] => do
+    let fuel ← atomNat? fuelA
+    let secure := sec == "secure"
+    let ms ← mods.mapM (decodeModule "m")
+    let ld : Loader := {
+      bundled := (ms.filter (·.2.1)).map (fun m => (m.1, m.2.2)),
+      user := (ms.filter (fun m => !m.2.1)).map (fun m => (m.1, m.2.2)),
+      effectful := ← eff.mapM decStr?,
+      knownNatives := ← known.mapM decStr?,
+      baseNames := [], bundledNames := [] }
+    let (s0, senv) := initialState secure ["bind_native"]
+    match ld.bundled.lookup (if mode == "legacy" then "legacy.ckl" else "base.ckl") with
+    | some (.ok ast) =>
+      match eval ld fuel 0 ast s0 with
+      | .ok _ s' => some (.ok { ld := ld, s0 := { s' with out := [] }, senv := senv, fuel := fuel })
+      | .err v m _ _ s' => some (.error (.list [.atom "libsetup", .atom "rt", encodeRVal s' 4 v, sxStr m]))
+      | .fail f _ => some (.error (.list [.atom "libsetup", encodeFail f]))
+    | _ => some (.error (.list [.atom "libsetup", .atom "no-base-module"]))
+  | _ => none
+
+def libSession (c : LibSetup) : Sx → Option Sx
+  | .list (.atom "libsession" :: progs) => some (.list (.atom "session" :: runSession c.ld c.fuel c.s0 c.senv progs))
   | _ => none
 
 end Ckl
